@@ -56,6 +56,8 @@ def generate(seed, tier):
             'G': G, 'jumps': nj, 'V0': 0.0, 'YD0': 0.0}
     if which != 'ITER' and S['swarm'].random() < 0.2:
         case['book_exo'] = True
+    if which != 'ITER' and S['swarm'].random() < 0.25:
+        case['resolve'] = True
     if rng.random() < 0.6:
         case['V0'] = round(rng.uniform(5, 150), 2)
     if which == 'SIMEX1' and rng.random() < 0.7:
@@ -212,6 +214,9 @@ def run_builder(c, tol=1e-12):
     with warnings.catch_warnings(), contextlib.redirect_stdout(io.StringIO()):
         warnings.simplefilter('ignore')
         model.main()
+        if c.get('resolve'):
+            # the same solver object is asked to solve again (no re-parse): the recursions hold for that run too
+            model.EquationSolver.SolveEquation()
     ts = model.EquationSolver.TimeSeries
     gcode = 'TRE' if c['which'] == 'PC' else 'GOV'
     got = {'Y': ts['GOOD__SUP_GOOD'], 'T': ts[gcode + '__T'], 'YD': ts['HH__AfterTax'], 'C': ts['HH__DEM_GOOD'],
@@ -289,6 +294,8 @@ def execute(case):
         stats['probes']['path_with_jumps'] = 1
     if case['V0']:
         stats['probes']['initial_stocks'] = 1
+    if case.get('resolve'):
+        stats['probes']['solved_twice_on_the_same_solver'] = 1
     if case.get('book_exo'):
         stats['probes']['paths_restated_over_builder_defaults'] = 1
     sig = core.digest([case['which'], case['on_grid'], case['T'], case['jumps'], bool(case['V0']), bool(case.get('YD0')),
